@@ -255,7 +255,7 @@ theorem sideTooLong_mono {b k : Bytes} (h : sideTooLong b k true = false) : side
 
 /-- what must hold for an owner's `complete_multipart_upload` that passes validation to be compared with the store: when the
     bucket exists, the key's path is free and the side-file names fit. A bucket that no longer exists is inside: both sides
-    answer `NoSuchBucket` and change nothing (9bdb75f; before, the backend wrote the object and so recreated the bucket
+    answer `NoSuchBucket` and change nothing (b29f222; before, the backend wrote the object and so recreated the bucket
     directory: fs:complete-into-missing-bucket). (Since 47e9b00 the metadata and the checksums of the object it replaces do
     not matter: they are replaced too; before: fs:stale-metadata-after-complete, fs:stale-checksum-after-complete.) -/
 def CompleteSuccessOk (s : State) (b k : Bytes) (_id : Nat) : Prop :=
